@@ -145,6 +145,56 @@ def hexof(v, t):
     return "%0*x" % (t.bits // 4, z3.simplify(v).as_long())
 
 
+def double_rounding_witnesses(seed, per_op=6):
+    """operand pairs (as C literals of type double) for which rounding the exact result first to the x87 extended format
+    and then to double differs from rounding it to double directly -- the inputs on which a folder that computes in a
+    wider host type goes wrong by one ulp. Found by exact rational search over structured candidates (small-integer
+    quotients, products of 33-bit integers, sums across 2^64); each is verified exactly before use."""
+    from fractions import Fraction as Fr
+    rnd = random.Random(seed * 9176 + 5)
+
+    def to_frac(bits, eb, prec, explicit):
+        bias = (1 << (eb - 1)) - 1
+        if explicit:
+            e, m = bits >> prec, bits & ((1 << prec) - 1)
+            return Fr(m, 1 << (prec - 1)) * Fr(2) ** ((e if e else 1) - bias)
+        e, m = bits >> (prec - 1), bits & ((1 << (prec - 1)) - 1)
+        if e == 0:
+            return Fr(m, 1 << (prec - 1)) * Fr(2) ** (1 - bias)
+        return (1 + Fr(m, 1 << (prec - 1))) * Fr(2) ** (e - bias)
+
+    def differs(r):
+        if r <= 0:
+            return False
+        d = c02.round_bits(r, 11, 53)
+        x = to_frac(c02.round_bits(r, 15, 64, explicit_int=True), 15, 64, True)
+        return c02.round_bits(x, 11, 53) != d
+
+    out = {"/": [], "*": [], "+": [], "-": []}
+    tries = 0
+    while len(out["/"]) < per_op and tries < 200000:
+        tries += 1
+        a, b = rnd.randrange(1, 64), rnd.randrange(3, 8000) | 1
+        if differs(Fr(a, b)):
+            out["/"].append(("%d.0" % a, "%d.0" % b))
+    tries = 0
+    while len(out["*"]) < per_op and tries < 200000:
+        tries += 1
+        a, b = (1 << 32) + rnd.randrange(1, 1 << 13), (1 << 32) + rnd.randrange(1, 1 << 13)
+        if differs(Fr(a * b)):
+            out["*"].append(("%d.0" % a, "%d.0" % b))
+    tries = 0
+    while len(out["+"]) < per_op and tries < 200000:
+        tries += 1
+        k = rnd.randrange(60, 70)
+        a, b = 1 << k, (rnd.randrange(1, 64) | 1) * (1 << (k - 53)) + rnd.randrange(1, 8)
+        if differs(Fr(a + b)):
+            out["+"].append(("%d.0" % a, "%d.0" % b))
+        if a - b > 0 and differs(Fr(a - b)) and len(out["-"]) < per_op:
+            out["-"].append(("%d.0" % a, "%d.0" % b))
+    return out
+
+
 def mk_probes(seed, count):
     rnd = random.Random(seed * 7727 + 3)
     out, seen = [], set()
@@ -173,6 +223,24 @@ def mk_probes(seed, count):
         p.expected_hex_ = hexof(v0, e.ty)
         p.expr = e.text
         out.append(p)
+    # double-rounding witnesses: double operations whose exact result rounds differently via the x87 extended format
+    W = double_rounding_witnesses(seed)
+    for op, pairs in W.items():
+        for (a, b) in pairs:
+            ea, eb_ = E(a, flit(a, DOUBLE), DOUBLE), E(b, flit(b, DOUBLE), DOUBLE)
+            v, t, d = c02.ref_bin(op, raw(ea), DOUBLE, raw(eb_), DOUBLE)
+            v = z3.simplify(v)
+            text = "(%s %s %s)" % (a, op, b)
+            for kind, body in (("static", "static double g_ = %s; return g_;" % text), ("run-time", "return %s;" % text),
+                               ("static-float-operands", None)):
+                if body is None:
+                    continue
+                n += 1
+                p = e2.ScalarProbe("fconst/double-rounding/%s/%s/%d" % (kind, {"+": "add", "-": "sub", "*": "mul", "/": "div"}[op], n), "fw%d" % n, DOUBLE, [], body,
+                                   (lambda v: lambda: (v, TRUE))(v), family="fconst")
+                p.expected_hex_ = hexof(v, DOUBLE)
+                p.expr = text
+                out.append(p)
     return out
 
 
